@@ -342,6 +342,20 @@ def run(tier, seed):
         elif sig in seen and repr(V.canon_doc(list(seen[sig]))) != repr(V.canon_doc(list(st))):
             rep.violate("variable states %r and %r share signature %s" % (seen[sig], st, sig and sig[:10]), {"kind": "vars", "state": repr(st)}, mechanism="variables-state-collision")
         seen.setdefault(sig, st)
+    # ... variables whose names are spelled with double underscores (__version__, __SEED__) are variables like any other
+    cs = CapturingStore(MemoryStore())
+    dds.set_store(cs)
+    for st in [(1, "s"), (2, "s"), (1, "t"), ("1.0", "s"), (1, "s"), (2, "s")]:
+        c05vars_a.__version__, c05vars_a.__SEED__ = st
+        rep.count("variable_states")
+        try:
+            r = dds.keep("/pdu", c05vars_a.read_dunders)
+        except BaseException as e:
+            rep.violate("keep of a function reading double-underscore variables %r raised %s: %s" % (st, type(e).__name__, str(e)[:150]), {"kind": "vars", "state": repr(st)}, mechanism="api-keep-raised")
+            continue
+        if r != ("dunders",) + st:
+            rep.violate("a function reading the module variables __version__ / __SEED__ returned %r for the state %r (a result computed for another state was served)" % (r, st), {"kind": "vars", "state": repr(st)}, mechanism="variables-state-collision")
+    c05vars_a.__version__, c05vars_a.__SEED__ = 1, "s"
     # ... under every setting of the options that switch tracking per type (accept_list: lists and tuples, accept_dict:
     # dicts), the values of the types that are still tracked keep their own signatures and results
     from collections import OrderedDict as _OD
